@@ -4,7 +4,9 @@ import (
 	"crypto/sha256"
 	"encoding/binary"
 	"encoding/hex"
+	"encoding/json"
 	"fmt"
+	"os"
 	"sort"
 	"strings"
 	"time"
@@ -13,7 +15,6 @@ import (
 	storetypes "cosmossdk.io/store/types"
 	"github.com/cosmos/cosmos-sdk/codec"
 	sdk "github.com/cosmos/cosmos-sdk/types"
-	"github.com/cosmos/cosmos-sdk/types/module"
 	"github.com/cosmos/gogoproto/proto"
 
 	coinswaptypes "mods.irisnet.org/modules/coinswap/types"
@@ -285,16 +286,23 @@ func (n *node) balancesDigest() string {
 	return hex.EncodeToString(h.Sum(nil)[:12])
 }
 
+// genesisExporter: what every irismod AppModule offers (their InitGenesis returns validator updates,
+// so they are module.HasABCIGenesis, not module.HasGenesis).
+type genesisExporter interface {
+	ExportGenesis(sdk.Context, codec.JSONCodec) json.RawMessage
+}
+
 func (n *node) exportModule(name string) (out string) {
+	m, ok := n.e.App.ModuleManager.Modules[name].(genesisExporter)
+	if !ok { // never silently compare nothing
+		fmt.Fprintln(os.Stderr, "determinism: module "+name+" has no ExportGenesis(ctx, cdc) method; adapt the harness")
+		os.Exit(3)
+	}
 	defer func() {
 		if r := recover(); r != nil {
 			out = "panic: " + fmt.Sprint(r)
 		}
 	}()
-	m, ok := n.e.App.ModuleManager.Modules[name].(module.HasGenesis)
-	if !ok {
-		return "no-genesis"
-	}
 	return string(m.ExportGenesis(n.e.Ctx, n.e.App.AppCodec()))
 }
 
